@@ -2,7 +2,6 @@ package c11
 
 import (
 	"encoding/base64"
-	"encoding/binary"
 	"fmt"
 	"net"
 	"time"
@@ -17,24 +16,75 @@ import (
 // ---------------------------------------------------------------------------------------------
 // The receiving side of a signed stream (Transfer.In / Transfer.ReadMsg with TsigSecret): the
 // harness plays the server on a net.Pipe and sends a chain of envelopes signed by the reference -
-// first over the request MAC and all variables, the others over the previous MAC and the timers -
-// with one envelope optionally sent WITHOUT its TSIG. Asserted is the pinned behaviour: once a
-// secret is configured every envelope has to carry a valid TSIG; an envelope without one is
-// reported with an error and nothing after it is delivered ("a message without TSIG is never
-// reported as verified"). RFC 8945 5.3.1 would tolerate unsigned intermediate envelopes that a
-// later TSIG covers; the library does not implement that and the check does not ask for it.
+// first over the request MAC and all variables, the others over the previous MAC and the timers
+// (RFC 8945 5.3.1) - cut into envelopes in a generated way (a first envelope that holds the SOA
+// alone, RFC 5936 2.2, among them; a closing envelope that holds the SOA alone; the whole zone in
+// one message), asked for with AXFR or IXFR, and with one generated fault at any position: an
+// envelope sent WITHOUT its TSIG, altered after signing, signed in the mode of the other position
+// (timers only for the first, all variables for a later one), signed with another secret, removed,
+// or exchanged with its successor. Asserted: the intact chain is delivered without an error
+// ("chains of envelopes where each MAC covers the previous one"); the first message whose MAC is
+// not the RFC 8945 HMAC for its position is reported with an error and nothing after it is
+// delivered. Pinned behaviour: once a secret is configured every envelope has to carry a valid TSIG
+// ("a message without TSIG is never reported as verified"). RFC 8945 5.3.1 would tolerate unsigned
+// intermediate envelopes that a later TSIG covers; the library does not implement that and the
+// check does not ask for it.
 
 type xfrInCase struct {
 	Key      int
 	ID       uint16
-	N        int // envelopes, 2..6
-	Unsigned int // index of the envelope sent without TSIG (1..N-1), 0 = none
-	Tamper   int // index of an envelope whose body is altered after signing (1..N-1), 0 = none
+	N        int // envelopes, 1..6
+	Unsigned int // (cases saved before round 9) index of the envelope sent without TSIG (1..N-1), 0 = none
+	Tamper   int // (cases saved before round 9) index of an envelope altered after signing (1..N-1), 0 = none
 	Fudge    uint16
+	// Round 9: how the server cuts the zone into envelopes, the kind of transfer and faults at any
+	// position. Recs[i] = records of envelope i besides the opening SOA (i == 0) and the closing SOA
+	// (i == N-1); nil = one each. Recs[0] == 0 with N >= 2 is the stream of RFC 5936 2.2 whose first
+	// message holds nothing but the SOA.
+	Recs  []int
+	Ixfr  bool   // an IXFR request (answered in AXFR style, RFC 1995 4): Transfer.In takes its other loop
+	Fault string // "", "unsigned", "tamper", "wrongmode", "wrongsecret", "drop", "swap"
+	At    int    // the envelope the fault applies to (drop / swap: At and At+1)
 }
 
+var xfrInFaults = []string{"unsigned", "tamper", "wrongmode", "wrongsecret", "drop", "swap"}
+
 func checkXfrIn(c xfrInCase) error {
-	if c.N < 2 || c.N > 6 || c.Unsigned < 0 || c.Unsigned >= c.N || c.Tamper < 0 || c.Tamper >= c.N || c.Fudge < 300 {
+	if c.N < 1 || c.N > 6 || c.Unsigned < 0 || c.Unsigned >= c.N || c.Tamper < 0 || c.Tamper >= c.N || c.Fudge < 300 {
+		return nil
+	}
+	fault, at := c.Fault, c.At
+	if fault == "" && c.Unsigned > 0 {
+		fault, at = "unsigned", c.Unsigned
+	} else if fault == "" && c.Tamper > 0 {
+		fault, at = "tamper", c.Tamper
+	}
+	recs := c.Recs
+	if recs == nil {
+		recs = make([]int, c.N)
+		for i := range recs {
+			recs[i] = 1
+		}
+	}
+	if len(recs) != c.N {
+		return nil
+	}
+	for i, r := range recs {
+		if r < 0 || r > 3 || (r == 0 && i > 0 && i < c.N-1) {
+			return nil // an envelope in the middle carries at least one record
+		}
+	}
+	switch fault {
+	case "":
+	case "unsigned", "tamper", "wrongmode", "wrongsecret":
+		if at < 0 || at >= c.N {
+			return nil
+		}
+	case "drop", "swap":
+		if at < 0 || at+1 >= c.N {
+			return nil
+		}
+	default:
 		return nil
 	}
 	key := e2eKeys[((c.Key%len(e2eKeys))+len(e2eKeys))%len(e2eKeys)]
@@ -43,14 +93,36 @@ func checkXfrIn(c xfrInCase) error {
 	ring := func(n ref.Labels) ([]byte, bool) { return key.secret, n.EqualFold(keyL) }
 	what := "intact"
 	switch {
-	case c.Unsigned > 0 && c.Unsigned == c.N-1:
+	case fault == "unsigned" && at == c.N-1:
 		what = "last-unsigned"
-	case c.Unsigned > 0:
+	case fault == "unsigned" && at > 0:
 		what = "middle-unsigned"
-	case c.Tamper > 0:
+	case fault == "unsigned":
+		what = "first-unsigned"
+	case fault == "tamper":
 		what = "tampered"
+	case fault != "":
+		what = fault
 	}
-	pbt.Note([]byte(fmt.Sprintf("%d|%d|%d|%d|%d", c.Key, c.ID, c.N, c.Unsigned, c.Tamper)), what != "intact", "stream="+what, fmt.Sprintf("envelopes=%d", c.N))
+	lone := c.N >= 2 && recs[0] == 0
+	first, kind, where := "first=soa+records", "xfr=axfr", "fault-at=none"
+	if lone {
+		first = "first=lone-soa"
+	}
+	if c.N == 1 {
+		first = "first=whole-zone"
+	}
+	if c.Ixfr {
+		kind = "xfr=ixfr"
+	}
+	if fault != "" {
+		where = "fault-at=" + []string{"first", "second", "later"}[min(at, 2)]
+		if lone {
+			where += "-after-lone-soa"
+		}
+	}
+	pbt.Note([]byte(fmt.Sprintf("%d|%d|%d|%s|%d|%v|%v", c.Key, c.ID, c.N, fault, at, recs, c.Ixfr)), fault != "" || c.N >= 2,
+		"stream="+what, fmt.Sprintf("envelopes=%d", c.N), first, kind, where)
 
 	cli, srv := net.Pipe()
 	defer srv.Close()
@@ -58,7 +130,11 @@ func checkXfrIn(c xfrInCase) error {
 	cli.SetDeadline(dl)
 	srv.SetDeadline(dl)
 	q := new(dns.Msg)
-	q.SetAxfr("zone.example.")
+	if c.Ixfr {
+		q.SetIxfr("zone.example.", 3, "ns.zone.example.", "h.zone.example.")
+	} else {
+		q.SetAxfr("zone.example.")
+	}
 	q.Id = c.ID
 	q.SetTsig(key.name, key.alg, c.Fudge, time.Now().Unix())
 	tr := &dns.Transfer{TsigSecret: map[string]string{key.name: base64.StdEncoding.EncodeToString(key.secret)}, ReadTimeout: 20 * time.Second}
@@ -85,90 +161,149 @@ func checkXfrIn(c xfrInCase) error {
 	if !rv.OK {
 		return pbt.Errf("the request written by Transfer.In is not correctly signed: %s", rv.Why)
 	}
-	// the server side: envelopes signed by the reference
+	// the server side: envelopes signed by the reference, RFC 8945 5.3.1 - the first one over the
+	// request MAC and the TSIG variables, every other one over the previous MAC and the timers
 	soa := &dns.SOA{Hdr: dns.RR_Header{Name: "zone.example.", Rrtype: dns.TypeSOA, Class: 1, Ttl: 60}, Ns: "ns.zone.example.", Mbox: "h.zone.example.", Serial: 7, Refresh: 1, Retry: 1, Expire: 1, Minttl: 1}
-	go func() {
-		prev := rv.Tsig.MAC
-		for i := 0; i < c.N; i++ {
-			m := new(dns.Msg)
-			m.SetReply(q)
-			m.Extra = nil
-			if i == 0 {
-				m.Answer = append(m.Answer, soa)
+	var stream [][]byte
+	var shape []string
+	prev := rv.Tsig.MAC
+	host := 0
+	for i := 0; i < c.N; i++ {
+		m := new(dns.Msg)
+		m.SetReply(q)
+		m.Ns, m.Extra = nil, nil
+		if i == 0 {
+			m.Answer = append(m.Answer, soa)
+		}
+		for k := 0; k < recs[i]; k++ {
+			m.Answer = append(m.Answer, &dns.A{Hdr: dns.RR_Header{Name: fmt.Sprintf("h%d.zone.example.", host), Rrtype: dns.TypeA, Class: 1, Ttl: 60}, A: net.IPv4(192, 0, 2, byte(host)).To4()})
+			host++
+		}
+		if i == c.N-1 {
+			m.Answer = append(m.Answer, soa)
+		}
+		shape = append(shape, fmt.Sprintf("%d rr", len(m.Answer)))
+		packed, err := m.Pack()
+		if err != nil {
+			return pbt.Errf("infrastructure: envelope %d does not pack: %v", i, err)
+		}
+		out := packed
+		if !(fault == "unsigned" && i == at) {
+			t := ref.Tsig{KeyName: keyL, Class: ref.ClassANY, Algorithm: algL, TimeSigned: uint64(time.Now().Unix()), Fudge: c.Fudge, OrigID: c.ID}
+			timers, secret := i > 0, key.secret
+			if fault == "wrongmode" && i == at {
+				timers = !timers
 			}
-			m.Answer = append(m.Answer, &dns.A{Hdr: dns.RR_Header{Name: fmt.Sprintf("h%d.zone.example.", i), Rrtype: dns.TypeA, Class: 1, Ttl: 60}, A: net.IPv4(192, 0, 2, byte(i)).To4()})
-			if i == c.N-1 {
-				m.Answer = append(m.Answer, soa)
+			if fault == "wrongsecret" && i == at {
+				secret = append([]byte("not-"), key.secret...)
 			}
-			packed, err := m.Pack()
+			var mac []byte
+			out, mac, err = ref.TsigSign(packed, t, secret, prev, timers)
 			if err != nil {
-				return
+				return pbt.Errf("infrastructure: reference signer: %v", err)
 			}
-			out := packed
-			if i != c.Unsigned || i == 0 {
-				t := ref.Tsig{KeyName: keyL, Class: ref.ClassANY, Algorithm: algL, TimeSigned: uint64(time.Now().Unix()), Fudge: c.Fudge, OrigID: c.ID}
-				var mac []byte
-				out, mac, _ = ref.TsigSign(packed, t, key.secret, prev, i > 0)
-				prev = mac
-			}
-			if i == c.Tamper && i > 0 {
-				out = append([]byte(nil), out...)
-				out[len(packed)-1] ^= 1 // last octet of the last answer record
-			}
+			prev = mac
+		}
+		if fault == "tamper" && i == at {
+			out = append([]byte(nil), out...)
+			out[len(packed)-1] ^= 1 // last octet of the last answer record
+		}
+		stream = append(stream, out)
+	}
+	switch fault {
+	case "drop":
+		stream = append(stream[:at:at], stream[at+1:]...)
+	case "swap":
+		stream[at], stream[at+1] = stream[at+1], stream[at]
+	}
+	go func() {
+		for _, out := range stream {
 			if writeFramed(srv, out) != nil {
 				return
 			}
 		}
 	}()
-	bad := c.Unsigned
-	if bad == 0 {
-		bad = c.Tamper
+	bad := -1
+	if fault != "" {
+		bad = at
 	}
+	desc := fmt.Sprintf("%s answered with %d envelopes %v, key %s", kind[4:], c.N, shape, key.name)
 	got := 0
 	for env := range in.ch {
 		switch {
-		case bad > 0 && got == bad:
+		case bad >= 0 && got == bad:
 			if env.Error == nil {
-				kind := "sent without a TSIG"
-				if c.Unsigned == 0 {
-					kind = "altered after signing"
+				var how string
+				switch fault {
+				case "unsigned":
+					how = "was sent without a TSIG"
+				case "tamper":
+					how = "was altered after signing"
+				case "wrongmode":
+					how = "was signed over the previous MAC and the timers only, where RFC 8945 5.3.1 asks for the request MAC and all TSIG variables"
+					if at > 0 {
+						how = "was signed over the previous MAC and all TSIG variables, where RFC 8945 5.3.1 asks for the previous MAC and the timers only"
+					}
+				case "wrongsecret":
+					how = "was signed with another secret"
+				case "drop":
+					how = fmt.Sprintf("covers the MAC of envelope %d, which was removed from the stream,", at+1)
+				case "swap":
+					how = fmt.Sprintf("is envelope %d of the signer, exchanged with its predecessor,", at+2)
 				}
-				return pbt.Errf("envelope %d of %d of a TSIG-protected transfer was %s and is delivered by Transfer.In without an error (%d records)", got+1, c.N, kind, len(env.RR))
+				return pbt.Errf("message %d of a TSIG-protected transfer %s and is delivered by Transfer.In without an error (%d records; %s)", got+1, how, len(env.RR), desc)
 			}
-		case bad > 0 && got > bad:
-			return pbt.Errf("Transfer.In delivers envelope %d after envelope %d failed verification", got+1, bad+1)
+		case bad >= 0 && got > bad:
+			return pbt.Errf("Transfer.In delivers message %d after message %d failed verification (%s, fault %q)", got+1, bad+1, desc, fault)
 		default:
 			if env.Error != nil {
-				return pbt.Errf("envelope %d of %d of a correctly signed transfer is reported with an error: %v", got+1, c.N, env.Error)
+				return pbt.Errf("envelope %d of %d of a transfer signed as RFC 8945 5.3.1 says (first over the request MAC and the variables, every later one over the previous MAC and the timers) is reported with an error: %v (%s, fault %q at %d)", got+1, c.N, env.Error, desc, fault, at)
 			}
 		}
 		got++
 	}
 	want := c.N
-	if bad > 0 {
+	if bad >= 0 {
 		want = bad + 1
 	}
 	if got != want {
-		return pbt.Errf("Transfer.In delivered %d envelopes, want %d (stream of %d, %s)", got, want, c.N, what)
+		return pbt.Errf("Transfer.In delivered %d envelopes, want %d (%s, stream %s)", got, want, desc, what)
 	}
-	_ = binary.BigEndian
 	return nil
 }
 
 func genXfrIn(t *rapid.T) xfrInCase {
-	c := xfrInCase{Key: rapid.IntRange(0, len(e2eKeys)-1).Draw(t, "key"), ID: rapid.Uint16().Draw(t, "id"), N: rapid.IntRange(2, 6).Draw(t, "n"), Fudge: 300}
-	switch rapid.IntRange(0, 3).Draw(t, "kind") {
-	case 0:
-	case 1:
-		c.Unsigned = c.N - 1
-	case 2:
-		c.Unsigned = rapid.IntRange(1, c.N-1).Draw(t, "unsigned")
-	default:
-		c.Tamper = rapid.IntRange(1, c.N-1).Draw(t, "tamper")
+	c := xfrInCase{Key: rapid.IntRange(0, len(e2eKeys)-1).Draw(t, "key"), ID: rapid.Uint16().Draw(t, "id"), N: rapid.IntRange(1, 6).Draw(t, "n"), Fudge: 300}
+	c.Ixfr = rapid.IntRange(0, 3).Draw(t, "ixfr") == 0
+	c.Recs = make([]int, c.N)
+	for i := range c.Recs {
+		lo := 0
+		if i > 0 && i < c.N-1 {
+			lo = 1
+		}
+		c.Recs[i] = rapid.IntRange(lo, 3).Draw(t, "recs")
+	}
+	if c.N >= 2 && rapid.IntRange(0, 2).Draw(t, "lone") == 0 {
+		c.Recs[0] = 0 // RFC 5936 2.2: the first message may hold the SOA alone
+	}
+	if k := rapid.IntRange(0, len(xfrInFaults)+1).Draw(t, "fault"); k < len(xfrInFaults) {
+		c.Fault = xfrInFaults[k]
+		hi := c.N - 1
+		if c.Fault == "drop" || c.Fault == "swap" {
+			hi--
+		}
+		if hi < 0 {
+			c.Fault, hi = "tamper", 0
+		}
+		// the second envelope is where the mode changes: a third of the faults go to the first two
+		c.At = rapid.IntRange(0, hi).Draw(t, "at")
+		if hi >= 1 && rapid.IntRange(0, 2).Draw(t, "early") == 0 {
+			c.At = rapid.IntRange(0, 1).Draw(t, "at01")
+		}
 	}
 	return c
 }
 
 func init() {
-	pbt.Register(pbt.Sub[xfrInCase]{Name: "transfer-in-envelope-without-tsig", Weight: 0.25, Gen: genXfrIn, Check: checkXfrIn})
+	pbt.Register(pbt.Sub[xfrInCase]{Name: "transfer-in-envelope-without-tsig", Weight: 0.5, Gen: genXfrIn, Check: checkXfrIn})
 }
